@@ -331,22 +331,33 @@ pub(crate) fn mode(entry: &VfsEntry, octal: u32, sym: &str) -> RvResult<u32> {
     let mut chars: Vec<char> = sym.chars().rev().collect();
 
     let mut state = State::Target;
+    let mut applies = true; // does the current chmod target this entry
+    let mut complete = false; // has the current chmod been given all its segments
     while let Some(mut c) = chars.pop() {
         match state {
             State::Target => {
                 group = 0; // reset group for next chmod
                 op = '0'; // reset op for next chmod
+                applies = !entry.is_symlink(); // links themselves are never modified
+                complete = false;
 
+                let mut targets = 0;
                 loop {
                     if c != 'd' && c != 'f' && c != 'a' && c != ':' {
                         return Err(VfsError::InvalidChmodTarget(sym.to_string()).into());
                     }
-                    if entry.is_symlink() || (c == 'd' && !entry.is_dir()) || (c == 'f' && !entry.is_file()) {
-                        return Ok(mode); // target mismatch so just return the original mode
-                    } else if c == ':' {
+                    if c == ':' {
+                        if targets == 0 {
+                            return Err(VfsError::InvalidChmodTarget(sym.to_string()).into());
+                        }
                         state = State::Group;
                         break;
                     }
+                    // target mismatch so skip this chmod but keep processing any that follow
+                    if (c == 'd' && !entry.is_dir()) || (c == 'f' && !entry.is_file()) {
+                        applies = false;
+                    }
+                    targets += 1;
                     c = _pop(&mut chars, sym)?;
                 }
             },
@@ -403,15 +414,22 @@ pub(crate) fn mode(entry: &VfsEntry, octal: u32, sym: &str) -> RvResult<u32> {
                 }
 
                 // Process permission
-                match op {
-                    '-' => mode &= !(group & perm),
-                    '+' => mode |= group & perm,
-                    _ => mode = (!group & mode) | (group & perm),
+                complete = true;
+                if applies {
+                    match op {
+                        '-' => mode &= !(group & perm),
+                        '+' => mode |= group & perm,
+                        _ => mode = (!group & mode) | (group & perm),
+                    }
                 }
             },
         }
     }
 
+    // The final chmod needs to have been given all its segments
+    if !complete {
+        return Err(VfsError::InvalidChmod(sym.to_string()).into());
+    }
     Ok(mode)
 }
 
